@@ -1,12 +1,14 @@
 (* C06 — property theorems only (each closed by `exact`, followed by Print Assumptions).
    Static part: every attribute name the cleaner reads/calls exists (generated from /repo on every run).
-   Termination part: the two fixed-point loops that can be given an explicit measure, on the heap model
-   (C05/Heap.v + C06/Model.v).  NOT proved: termination of fix_nesting (see C06_fix_nesting_partial), and
-   absence of exceptions other than missing attributes - those are decided by the search (each pass called
-   directly on the real tree under a time limit). *)
+   Termination part: the three fixed-point loops (fix_paragraphs, remove_breaking_returns with the real
+   navigation functions, fix_nesting) with explicit measures, on the heap model (C05/Heap.v + C06/Model.v)
+   resp. on labelled trees (C06/ModelNesting.v).  NOT proved: absence of exceptions other than missing
+   attributes in the other passes - decided by the search (each pass called directly on the real tree under
+   a time limit). *)
 From Coq Require Import List String NArith Bool.
-From MW Require Import C05.Heap C05.TreeOps C06.Model.
+From MW Require Import C05.Heap C05.TreeOps C06.Model C06.ModelNesting.
 From MW Require C06.Gen_api C06.ProofsGen C06.Proofs C06.ProofsExtra C07.Proofs.
+From MW Require C06.ProofsNesting C06.ProofsNestingExtra C06.ModelNav C06.ProofsNav C06.ProofsNavFuel.
 Import ListNotations.
 
 (* every attribute name used on a non-module receiver in treecleaner.py / treecleanerhelper.py is defined by
@@ -90,19 +92,174 @@ Example C06_cand_hypothesis_satisfiable : forall r : N,
 Proof. exact ProofsExtra.cand_hyp_satisfiable. Qed.
 Print Assumptions C06_cand_hypothesis_satisfiable.
 
-(* fix_nesting (treecleaner.py:850-904).  FULL STATEMENT (not proved):
-     forall h r, WF h r -> exists k, fix_nesting_loop k h r <> OutOfFuel
-   with measure "number of (node, forbidden visible ancestor) pairs".  What is proved is the structural
-   fact about ONE iteration: the three trees made from the bad parent (top / the spliced middle child /
-   bottom) together carry exactly the bad parent's words, i.e. the iteration re-arranges and loses nothing.
-   MISSING: a model of _nesting_broken / _mark_nodes and the proof that the pair count decreases; the case
-   that resists is _mark_nodes testing `child in divide` with structural == : a left sibling EQUAL to a path
-   node is taken for the path, is kept in all three copies, and `middle.children[0]` then is that sibling
-   and not the problem node.  The search is pointed at that shape (equal siblings next to a mis-nested node,
-   nested forbidden pairs such as tables in definition lists in preformatted text). *)
+(* fix_nesting (treecleaner.py:850-904): one structural fact about ONE iteration on the `tree` type of C05: the
+   three trees made from the bad parent (top / the spliced middle child / bottom) together carry exactly the bad
+   parent's words.  The full termination / postcondition / word results follow below (theorems C06_fix_nesting_terminates etc.). *)
 Theorem C06_fix_nesting_partial : forall h path t,
   C07.Proofs.path_ok path t -> path <> [] -> C07.Proofs.own_text_empty h path (tid t) ->
   words_t h (C07.Proofs.split_top path t) ++ flat_map (words_t h) (tkids (C07.Proofs.split_mid path t))
     ++ words_t h (C07.Proofs.split_bot path t) = words_t h t.
 Proof. exact C07.Proofs.words_split. Qed.
 Print Assumptions C06_fix_nesting_partial.
+
+(* ---- the candidates of remove_breaking_returns computed by the REAL navigation functions (C06/ModelNav.v:
+   get_first_leaf incl. the Section special case, get_last_leaf as written, _get_next, _get_prev; is_block_node
+   and "display text is blank" abstract).  On a proper tree whose root is no BreakingReturn every candidate of
+   every start node n of the tree is a node of the tree, and a BreakingReturn candidate is not the root:
+   the hypothesis of C06_breaking_returns_terminates holds at (h, n). *)
+Theorem C06_cand_real_attached : forall is_block blank h r n c, WF h r ->
+  (forall t, tid t = r -> repr h None t -> In n (ids t)) -> clsof h r <> c_BR ->
+  In c (C06.ModelNav.cand_real is_block blank h n) ->
+  (forall t, tid t = r -> repr h None t -> In c (ids t)) /\ (clsof h c = c_BR -> c <> r).
+Proof. exact C06.ProofsNav.cand_real_attached. Qed.
+Print Assumptions C06_cand_real_attached.
+
+(* the loop with the real candidates terminates within (#BreakingReturn)+1 iterations and keeps the tree
+   proper, from every start node n of the tree such that no node on the parent chain of n (n and the root
+   included) is a BreakingReturn ... *)
+Theorem C06_breaking_returns_terminates_real : forall is_block blank h r n, WF h r ->
+  (forall t, tid t = r -> repr h None t -> In n (ids t)) -> C06.ModelNav.chain_no_br h n ->
+  br_loop (C06.ModelNav.cand_real is_block blank) (S (count_br h r)) h n <> OutOfFuel /\
+  (forall h', br_loop (C06.ModelNav.cand_real is_block blank) (S (count_br h r)) h n = Done h' -> WF h' r).
+Proof. exact C06.ProofsNav.breaking_returns_terminates_real. Qed.
+Print Assumptions C06_breaking_returns_terminates_real.
+
+(* ... in particular when BreakingReturns are childless (<br/> is a leaf) and the start node is none (the real
+   loop is guarded by node.is_block_node) *)
+Theorem C06_breaking_returns_terminates_real_leaf : forall is_block blank h r n, WF h r ->
+  (forall t, tid t = r -> repr h None t -> In n (ids t)) ->
+  (forall c, clsof h c = c_BR -> kids h c = []) -> clsof h n <> c_BR ->
+  br_loop (C06.ModelNav.cand_real is_block blank) (S (count_br h r)) h n <> OutOfFuel /\
+  (forall h', br_loop (C06.ModelNav.cand_real is_block blank) (S (count_br h r)) h n = Done h' -> WF h' r).
+Proof. exact C06.ProofsNav.breaking_returns_terminates_real_leaf. Qed.
+Print Assumptions C06_breaking_returns_terminates_real_leaf.
+
+(* REFUTED without the preconditions (model runs): BreakingReturn[Div]: _get_prev(Div) is the root, a
+   BreakingReturn without parent - try_remove_node does nothing, `changed` is set, the loop never ends ... *)
+Example C06_cand_root_br_refuted :
+  WF C06.ProofsNav.h_rootbr 1 /\ In 2%N (ids (T 1 [T 2 []]))%N /\
+  repr C06.ProofsNav.h_rootbr None (T 1 [T 2 []])%N /\
+  In 1%N (C06.ModelNav.cand_real C06.ProofsNav.nb C06.ProofsNav.nb C06.ProofsNav.h_rootbr 2) /\
+  clsof C06.ProofsNav.h_rootbr 1 = c_BR /\
+  forall k, br_loop (C06.ModelNav.cand_real C06.ProofsNav.nb C06.ProofsNav.nb) k C06.ProofsNav.h_rootbr 2 = OutOfFuel.
+Proof. exact C06.ProofsNav.cand_root_br_refuted. Qed.
+Print Assumptions C06_cand_root_br_refuted.
+
+(* ... and Article[BreakingReturn[Div]] (root fine): _get_prev(Div) is the BreakingReturn ABOVE the start node; it
+   is removed with the start node inside and is from then on a parentless BreakingReturn candidate: the loop spins
+   (needs a BreakingReturn WITH a block-node descendant, which the parser does not produce: <br> is a leaf) *)
+Example C06_cand_detached_refuted :
+  WF C06.ProofsNav.h_above 1 /\ clsof C06.ProofsNav.h_above 1 <> c_BR /\
+  In 3%N (ids (T 1 [T 2 [T 3 []]]))%N /\ repr C06.ProofsNav.h_above None (T 1 [T 2 [T 3 []]])%N /\
+  forall k, br_loop (C06.ModelNav.cand_real C06.ProofsNav.nb C06.ProofsNav.nb) k C06.ProofsNav.h_above 3 = OutOfFuel.
+Proof. exact C06.ProofsNav.cand_detached_refuted. Qed.
+Print Assumptions C06_cand_detached_refuted.
+
+Example C06_breaking_returns_real_example :
+  WF C06.ProofsNav.h_ok 1 /\ (forall c, clsof C06.ProofsNav.h_ok c = c_BR -> kids C06.ProofsNav.h_ok c = []) /\
+  clsof C06.ProofsNav.h_ok 2 <> c_BR /\
+  exists h', br_loop (C06.ModelNav.cand_real C06.ProofsNav.nb C06.ProofsNav.nb)
+                     (S (count_br C06.ProofsNav.h_ok 1)) C06.ProofsNav.h_ok 2 = Done h' /\
+             kids h' 1 = [2]%N /\ kids h' 2 = [4]%N /\ wfb h' 1 = true.
+Proof. exact C06.ProofsNav.breaking_returns_real_example. Qed.
+Print Assumptions C06_breaking_returns_real_example.
+
+(* ---- fuel sufficiency of the navigation model (C06/ProofsNavFuel.v): on a proper tree and for a start node n
+   of the tree, none of first_leaf / last_leaf / _get_next / _get_prev run with fuel S (length h) runs out of
+   fuel (first_leaf: fuel > subtree size; _get_next/_get_prev: each step moves strictly later / earlier in the
+   duplicate-free preorder list of the tree, which has at most length h elements) ... *)
+Theorem C06_nav_fuel_ok : forall is_block blank h r n, WF h r ->
+  (forall t, tid t = r -> repr h None t -> In n (ids t)) ->
+  forall x, In x (C06.ModelNav.nav_list is_block blank h n) -> x <> C06.ModelNav.NFuel.
+Proof. exact C06.ProofsNavFuel.nav_fuel_ok. Qed.
+Print Assumptions C06_nav_fuel_ok.
+
+(* ... so every navigation result is a genuine Python value (a node or None) and cand_real is exactly the list of
+   the non-None results: the candidate model drops nothing because of fuel *)
+Theorem C06_cand_real_faithful : forall is_block blank h r n, WF h r ->
+  (forall t, tid t = r -> repr h None t -> In n (ids t)) ->
+  (forall x, In x (C06.ModelNav.nav_list is_block blank h n) -> exists o, x = C06.ModelNav.NRes o) /\
+  (forall c, In c (C06.ModelNav.cand_real is_block blank h n) <->
+             In (C06.ModelNav.NRes (Some c)) (C06.ModelNav.nav_list is_block blank h n)).
+Proof. exact C06.ProofsNavFuel.cand_real_faithful. Qed.
+Print Assumptions C06_cand_real_faithful.
+
+Example C06_nav_fuel_example :
+  C06.ModelNav.nav_list C06.ProofsNav.nb C06.ProofsNav.nb C06.ProofsNav.h_ok 2 =
+  [C06.ModelNav.NRes (Some 3%N); C06.ModelNav.NRes (Some 5%N); C06.ModelNav.NRes (Some 6%N);
+   C06.ModelNav.NRes (Some 1%N)].
+Proof. exact C06.ProofsNavFuel.nav_fuel_example. Qed.
+Print Assumptions C06_nav_fuel_example.
+
+(* ---- fix_nesting (treecleaner.py:850-904, "loose"), model C06/ModelNesting.v: labelled trees, identity-based
+   marks (the behaviour since fix commit 09d8eb0 = /verif/fixes/C07-fix-nesting-identity.diff), ANY
+   forbidden_parents table `forb` and ANY outside_parents_invisible set `invis`.  On every tree with distinct
+   node identities the `while self._fix_nesting(node): pass` loop evaluates its condition at most
+   (number of (node, forbidden visible ancestor) pairs) + 1 times: it returns, or raises AttributeError when
+   the ROOT is the bad parent (NRaised).  The pair count strictly decreases because the preorder search
+   repairs the FIRST broken node: all its ancestors (hence every node that is copied three times) have no
+   forbidden visible ancestor. *)
+Theorem C06_fix_nesting_terminates : forall (forb : N -> N -> bool) (invis : N -> bool) (t : ltree),
+  NoDup (lids t) -> fix_nesting forb invis eq_id (nest_fuel forb invis t) t <> NOutOfFuel.
+Proof. exact ProofsNesting.fix_nesting_terminates. Qed.
+Print Assumptions C06_fix_nesting_terminates.
+
+(* the same for a document of the heap model (C05/Heap.v) read along its represented tree *)
+Theorem C06_fix_nesting_terminates_heap : forall forb invis (h : heap) (exc : N -> bool) (t : tree),
+  repr h None t -> NoDup (ids t) ->
+  fix_nesting forb invis eq_id (nest_fuel forb invis (lt_of h exc t)) (lt_of h exc t) <> NOutOfFuel.
+Proof. exact ProofsNesting.fix_nesting_terminates_heap. Qed.
+Print Assumptions C06_fix_nesting_terminates_heap.
+
+(* the measure: one iteration that changes the tree strictly decreases the pair count, keeps the identities
+   distinct and (words only on childless nodes) keeps the in-order words *)
+Theorem C06_fix_nesting_measure : forall forb invis t t', NoDup (lids t) ->
+  nest_step forb invis eq_id t = NMoved t' ->
+  npairs forb invis [] t' < npairs forb invis [] t /\ NoDup (lids t') /\
+  (leafwords t = true -> lwords t' = lwords t /\ leafwords t' = true).
+Proof. exact ProofsNesting.nest_step_moved. Qed.
+Print Assumptions C06_fix_nesting_measure.
+
+(* on a normal return: identities still distinct, no node outside exception sub-trees (_is_exception) has a
+   forbidden visible ancestor, the words are unchanged *)
+Theorem C06_fix_nesting_postcondition : forall forb invis fuel t t', NoDup (lids t) ->
+  fix_nesting forb invis eq_id fuel t = NDone t' ->
+  NoDup (lids t') /\ nest_ok forb invis [] t' = true /\ npairs forb invis [] t' <= npairs forb invis [] t /\
+  (leafwords t = true -> lwords t' = lwords t /\ leafwords t' = true).
+Proof. exact ProofsNesting.fix_nesting_done. Qed.
+Print Assumptions C06_fix_nesting_postcondition.
+
+(* with identity marks `middle_tree.children[0]` never raises IndexError: the only exception of an iteration
+   is the root being the bad parent *)
+Theorem C06_fix_nesting_raise_only_at_root : forall forb invis t, NoDup (lids t) ->
+  nest_step forb invis eq_id t = NRaise ->
+  exists news, visit forb invis eq_id (lfresh t) [] t = VSplice news.
+Proof. exact ProofsNesting.nest_step_raise. Qed.
+Print Assumptions C06_fix_nesting_raise_only_at_root.
+
+Example C06_fix_nesting_example :
+  NoDup (lids ProofsNestingExtra.t_deep) /\ leafwords ProofsNestingExtra.t_deep = true /\
+  nest_fuel forb_real invis_real ProofsNestingExtra.t_deep = 3%nat /\
+  exists t', fix_nesting forb_real invis_real eq_id (nest_fuel forb_real invis_real ProofsNestingExtra.t_deep)
+                         ProofsNestingExtra.t_deep = NDone t' /\
+             lwords t' = [1; 2; 3; 4; 5; 6]%N /\ nest_ok forb_real invis_real [] t' = true /\
+             map lcls (lkids t') = [c_PreFormatted; c_Strong; c_PreFormatted] /\
+             npairs forb_real invis_real [] t' = 0%nat.
+Proof. exact ProofsNestingExtra.fix_nesting_example. Qed.
+Print Assumptions C06_fix_nesting_example.
+
+Example C06_fix_nesting_root_raises_example :
+  fix_nesting forb_real invis_real eq_id (nest_fuel forb_real invis_real ProofsNestingExtra.t_root)
+              ProofsNestingExtra.t_root = NRaised.
+Proof. exact ProofsNestingExtra.fix_nesting_root_raises_example. Qed.
+Print Assumptions C06_fix_nesting_root_raises_example.
+
+(* REFUTED for the code as it was before 09d8eb0 (Node.__eq__ in _mark_nodes, nodes.py:28-33): one iteration on
+   Article[Code[x, Pre[a], z, Pre[a], y]] loses the second `a`; with identity it does not *)
+Theorem C06_fix_nesting_structural_eq_refuted :
+  exists t, NoDup (lids t) /\ leafwords t = true /\
+    (exists t', nest_step forb_real invis_real eq_struct t = NMoved t' /\
+                lwords t = [101; 102; 103; 102; 104]%N /\ lwords t' = [101; 102; 103; 104]%N) /\
+    (exists t', nest_step forb_real invis_real eq_id t = NMoved t' /\ lwords t' = lwords t).
+Proof. exact ProofsNestingExtra.fix_nesting_structural_eq_refuted. Qed.
+Print Assumptions C06_fix_nesting_structural_eq_refuted.
